@@ -101,7 +101,32 @@ InputsCtl(st) ==
           IN IF d = NoTime THEN {} ELSE {[k |-> "adv", dt |-> (d - st.now) + 5]})
     \cup {[k |-> "adv", dt |-> SelectTO - 10], [k |-> "adv", dt |-> 20]}
 
-Inputs(st) == IF Alpha = "ctl" THEN InputsCtl(st) ELSE InputsEvents(st)
+\* freeze requests, requests that broadcast allows, time requests
+InputsMisc(st) ==
+    (IF st.pc = "Down" THEN {[k |-> "conn"]} ELSE {[k |-> "cut"]})
+    \cup {[k |-> "upd", p |-> 1] : x \in {q \in {1} : st.nupd < MaxUpd}}
+    \cup (IF st.pc \in {"Down", "Dead"} THEN {} ELSE
+            {R("frz", st, [ob |-> o]) : o \in {"all", "rng"}}
+            \cup {R("frz", st, [ob |-> o, bad |-> "reject"]) : o \in {"gb", "bg", "bad"}}
+            \cup {R("frznr", st, [ob |-> "all"]), R("frznr", st, [ob |-> "bad", bad |-> "reject"]),
+                  R("frzclr", st, [ob |-> "all"]), R("frzclr", st, [ob |-> "bg", bad |-> "reject"]),
+                  R("frzclrnr", st, [ob |-> "rng"]),
+                  R("frzat", st, [ob |-> "timed"]), R("frzat", st, [ob |-> "all", bad |-> "reject"]),
+                  R("frzatnr", st, [ob |-> "timed"])}
+            \cup {R("frznr", st, [ob |-> "all", dst |-> "BC_OPT"]), R("frzclrnr", st, [ob |-> "all", dst |-> "BC_MAN"]),
+                  R("frzatnr", st, [ob |-> "timed", dst |-> "BC_NR"]), R("frz", st, [ob |-> "all", dst |-> "BC_OPT"]),
+                  R("record", st, [dst |-> "BC_NR"]), R("wtabs", st, [dst |-> "BC_OPT"]),
+                  R("frznr", st, [ob |-> "all", src |-> "X"])}
+            \cup {R("record", st, <<>>), R("wtlast", st, <<>>), R("delay", st, <<>>)}
+            \cup {[k |-> "read", seq |-> NextReqSeq(st), hs |-> <<H("c0")>>, rep |-> FALSE],
+                  [k |-> "read", seq |-> NextReqSeq(st), hs |-> <<H("c1")>>, rep |-> FALSE]}
+            \cup RepeatLast(st)
+            \cup {[k |-> "conf", uns |-> u, seq |-> RightConfirmSeq(st, u)] : u \in BOOLEAN})
+    \cup (LET d == NextTimer(st, st.now + 100000)
+          IN IF d = NoTime THEN {} ELSE {[k |-> "adv", dt |-> (d - st.now) + 5]})
+    \cup {[k |-> "adv", dt |-> 20]}
+
+Inputs(st) == CASE Alpha = "ctl" -> InputsCtl(st) [] Alpha = "misc" -> InputsMisc(st) [] OTHER -> InputsEvents(st)
 
 Init == /\ s = Init0
         /\ ev = ResetEv
